@@ -59,6 +59,7 @@ pub fn registry() -> Vec<PartEntry> {
         part!("C06", life::C06EndAll),
         part!("C06", rtchan::C06Uni),
         part!("C06", rtchan::C06Multi),
+        part!("C06", rtpipe::C06Pipe),
         part!("C07", life::C07CancelAll),
         part!("C07", life::C07EndOne),
         part!("C07", rtchan::C07Multi),
